@@ -19,7 +19,7 @@ import (
 func init() {
 	Props["C15"] = &harness.Prop{
 		ID:             "C15",
-		Rule:           "histories: alphabet of 21 inputs (incl. three MSM frames that carry a time error from the handler and are also too short to decode) (1005, 1006, MSM4 and MSM7 of GPS, Galileo, GLONASS and BeiDou with cells, four MSM messages whose cell masks have the same value and length but the shapes 2x3, 3x2, 1x6 and 6x1, 1230, an unknown type, non-RTCM text, a CRC-broken frame); every sequence of length <=3 (quick) / <=4 (thorough) through ONE handler at both log levels; each element is decoded (Analyse) and displayed twice; oracle: decoded structure deep-equal and text (without the MSM time lines) equal to those of a fresh handler, second display identical, raw bytes unchanged, and every message decoded earlier in the history and still held is displayed again and deep-compared after each later frame (nothing may be shared between messages); value copies of a delivered message: what consumer A does with its copy (String, Analyse, field assignments) leaves consumer B's copy deep-equal to a pristine one. concurrency: two (thorough: also three) threads decoding and displaying frames on separate handlers and on value copies of one message, with scheduling points at every function and loop entry of rtcm/handler, rtcm/utils, rtcm/header and the six MSM and two station packages; every schedule with <=1 (quick) / <=2 (thorough) preemptions; oracle: every result equals the sequential baseline. Non-trivial = histories of length >=2 / distinct schedule traces",
+		Rule:           "histories: alphabet of 25 inputs (incl. four MSM4/MSM7 frames whose cells and satellites carry the reserved 'invalid' values, three MSM frames that carry a time error from the handler and are also too short to decode) (1005, 1006, MSM4 and MSM7 of GPS, Galileo, GLONASS and BeiDou with cells, four MSM messages whose cell masks have the same value and length but the shapes 2x3, 3x2, 1x6 and 6x1, 1230, an unknown type, non-RTCM text, a CRC-broken frame); every sequence of length <=3 (quick) / <=4 (thorough) through ONE handler at both log levels; each element is decoded (Analyse) and displayed twice; oracle: decoded structure deep-equal and text (without the MSM time lines) equal to those of a fresh handler, second and third display identical, decoded fields after display deep-equal to those of an undisplayed twin, raw bytes unchanged, and every message decoded earlier in the history and still held is displayed again and deep-compared after each later frame (nothing may be shared between messages); value copies of a delivered message: what consumer A does with its copy (String, Analyse, field assignments) leaves consumer B's copy deep-equal to a pristine one. concurrency: two (thorough: also three) threads decoding and displaying frames on separate handlers and on value copies of one message, with scheduling points at every function and loop entry of rtcm/handler, rtcm/utils, rtcm/header and the six MSM and two station packages; every schedule with <=1 (quick) / <=2 (thorough) preemptions; oracle: every result equals the sequential baseline. Non-trivial = histories of length >=2 / distinct schedule traces",
 		Assumptions:    []string{"interleavings inside unsynchronised code are explored at function/loop-entry granularity; 'no data race' at the memory-model level is outside a cooperative scheduler and only touched by the auxiliary -race pass", "the two MSM time lines ('Time ...', 'Start of ... week ...') are removed before comparing texts, as the statement excludes them"},
 		Pre:            c15Histories,
 		Scenarios:      c15Scenarios,
@@ -64,6 +64,18 @@ func c15Alphabet() []c15Input {
 	shape("1077-3x2", 1077, 3, 2)
 	shape("1074-1x6", 1074, 1, 6)
 	shape("1074-6x1", 1074, 6, 1)
+	// cells and satellites carrying the reserved 'invalid' values, one field at a
+	// time: display code treats these specially and must not normalise them in place
+	for _, t := range []int{1077, 1074} {
+		rd, pd := int64(-(1 << 19)), int64(-(1 << 23))
+		if t == 1074 {
+			rd, pd = -(1 << 14), -(1 << 21)
+		}
+		h := &ref.MSMHeader{Type: t, Station: 5, Timestamp: 432000, SatMask: 0xE << 60, SigMask: 0x4 << 28, CellMask: []bool{true, true, true}}
+		sats := []ref.MSMSat{{Whole: 75, Ext: 3, Frac: 512, Rate: -77}, {Whole: 255, Ext: 15, Frac: 7, Rate: 12}, {Whole: 81, Ext: 0, Frac: 0, Rate: -(1 << 13)}}
+		add(fmt.Sprintf("%d-invalid-range-delta", t), ref.MSMFrame(h, sats, []ref.MSMSig{{RangeDelta: rd, PhaseDelta: 9, Lock: 1, CNR: 33, RateDelta: 5}, {RangeDelta: 4, PhaseDelta: 2, Lock: 2, CNR: 34, RateDelta: 6}, {RangeDelta: rd, PhaseDelta: -3, Lock: 3, CNR: 35, RateDelta: -7}}, 0))
+		add(fmt.Sprintf("%d-invalid-phase-and-rate-delta", t), ref.MSMFrame(h, sats, []ref.MSMSig{{RangeDelta: 11, PhaseDelta: pd, Lock: 1, CNR: 33, RateDelta: -(1 << 14)}, {RangeDelta: 4, PhaseDelta: pd, Lock: 2, CNR: 34, RateDelta: 6}, {RangeDelta: -12, PhaseDelta: -3, Lock: 3, CNR: 35, RateDelta: -(1 << 14)}}, 0))
+	}
 	// frames that carry an error from the handler AND fail to decode
 	add("1077-short-illegal-ts", ref.TypedFrame(1077, 9, func(i int) byte { return 0xFF }))
 	add("1117-short", ref.TypedFrame(1117, 9, nil))
@@ -99,10 +111,12 @@ type c15Result struct {
 	text     string
 	readable interface{}
 	errMsg   string
+	// decoded structure of a twin message that was never displayed
+	undisplayed interface{}
 }
 
 // decodeDisplay runs one input through GetMessage, Analyse and String (twice).
-func decodeDisplay(h *handler.Handler, in []byte) (res c15Result, fault string) {
+func decodeDisplay(h *handler.Handler, in []byte, withTwin ...bool) (res c15Result, fault string) {
 	defer func() {
 		if p := recover(); p != nil {
 			if mcrt.Aborting() {
@@ -113,21 +127,37 @@ func decodeDisplay(h *handler.Handler, in []byte) (res c15Result, fault string) 
 	}()
 	orig := append([]byte{}, in...)
 	buf := append([]byte{}, in...)
+	pre := *h // the handler is a plain struct: a copy carries the same history
 	m, _ := h.GetMessage(buf)
 	if m == nil {
 		return res, "nil message"
 	}
 	handler.Analyse(m)
+	// an undisplayed twin from a handler with the same history: display must leave
+	// the decoded fields as the decoder produced them
+	var twin *handler.Message
+	if len(withTwin) > 0 && withTwin[0] {
+		if twin, _ = pre.GetMessage(append([]byte{}, in...)); twin != nil {
+			handler.Analyse(twin)
+		}
+	}
 	t1 := m.String()
 	t2 := m.String()
 	t3 := m.String()
 	if t1 != t2 || t2 != t3 {
 		return res, "repeated display differs from the first"
 	}
+	if twin != nil && !reflect.DeepEqual(m.Readable, twin.Readable) {
+		return res, "display modified the decoded fields"
+	}
 	if !bytes.Equal(m.RawData, orig[:len(m.RawData)]) || !bytes.Equal(buf, orig) {
 		return res, "raw bytes modified by decoding or display"
 	}
-	return c15Result{m, m.MessageType, stripTimeLines(t1), m.Readable, m.ErrorMessage}, ""
+	var und interface{}
+	if twin != nil {
+		und = twin.Readable
+	}
+	return c15Result{m, m.MessageType, stripTimeLines(t1), m.Readable, m.ErrorMessage, und}, ""
 }
 
 func sameResult(a, b c15Result) string {
@@ -165,7 +195,7 @@ func c15Histories(r *ev.Run) {
 	for _, lvl := range []slog.Level{slog.LevelDebug, slog.LevelInfo} {
 		base := make([]c15Result, len(alpha))
 		for i, in := range alpha {
-			res, fault := decodeDisplay(handler.New(T0, lvl), in.bytes)
+			res, fault := decodeDisplay(handler.New(T0, lvl), in.bytes, true)
 			if fault != "" {
 				fail(fault, lvl, []string{in.name}, "fresh handler")
 			}
@@ -183,7 +213,7 @@ func c15Histories(r *ev.Run) {
 			}
 			for i := range alpha {
 				child := h // the handler is a plain struct: branching clones its state
-				res, fault := decodeDisplay(&child, alpha[i].bytes)
+				res, fault := decodeDisplay(&child, alpha[i].bytes, true)
 				tr++
 				var names []string
 				for _, k := range append(append([]int{}, hist...), i) {
@@ -233,6 +263,16 @@ func c15Histories(r *ev.Run) {
 				a, b, pristine := *m, *m, *m
 				_ = a.String()
 				handler.Analyse(&a)
+				// copies made after the message was decoded share the decoded structure:
+				// A displaying its copy must not change what B sees in its own
+				if m3, _ := handler.New(T0, lvl).GetMessage(append([]byte{}, in.bytes...)); m3 != nil {
+					handler.Analyse(m3)
+					a3, b3 := *m3, *m3
+					_, _ = a3.String(), a3.String()
+					if !reflect.DeepEqual(b3.Readable, base[i].undisplayed) {
+						fail("consumer-copy-decoded-fields-changed-by-other-consumer-display", lvl, []string{in.name}, "B's decoded fields after A displayed its copy")
+					}
+				}
 				a.ErrorMessage, a.MessageType, a.SentAt, a.Readable = "changed by consumer A", -5, "x", "junk"
 				a.RawData = nil
 				if !reflect.DeepEqual(b, pristine) {
@@ -324,7 +364,7 @@ func c15Scenarios(tier string) []*mcrt.Scenario {
 								m := cp
 								handler.Analyse(&m)
 								t1 := m.String()
-								obs.results[key] = c15Result{nil, m.MessageType, stripTimeLines(t1), m.Readable, m.ErrorMessage}
+								obs.results[key] = c15Result{nil, m.MessageType, stripTimeLines(t1), m.Readable, m.ErrorMessage, nil}
 								continue
 							}
 							res, fault := decodeDisplay(h, in.bytes)
